@@ -32,6 +32,54 @@ CLAIMED = {
              "default worker count under taskset.",
         note="goroutine / WaitGroup semantics are modelled (transition system), not verified.",
         tech="Coq proof (loop induction, schedule invariant) + differential correspondence", ref="DESIGN.md 6.20"),
+    "C15": dict(
+        text="Theorems for ALL operands: the portable limb functions (_addGeneric, _subGeneric, _negGeneric, _doubleGeneric, "
+             "Butterfly, the 4-round CIOS _mulGeneric with final reduction, _fromMontGeneric, transcribed line by line) return "
+             "well-formed, fully reduced limbs whose value is the integer result mod r (Montgomery product x*y/R); the constants "
+             "(q limbs, qInvNeg, R^-1, one) are right; from_mont is a ring isomorphism from Montgomery representatives onto Z/r "
+             "(add, sub, neg, double, mul, to/from Mont); Exp = power for every exponent; Inverse(0)=0 and Inverse returns an "
+             "inverse whenever one exists (no primality assumed); mulByConstant, Cmp, LexicographicallyLargest; BatchInvert = "
+             "map inverse-or-zero for every list. Sqrt/Legendre 'nil iff non-residue' is NOT proved (needs r prime): "
+             "correspondence only. Correspondence: default (ADX asm), noadx and the portable generic functions vs limb model "
+             "and integer model on boundary-heavy operands incl. aliasing.",
+        note="amd64 assembly and the ADX/non-ADX dispatch are compared with the model, not verified. Sqrt, Legendre: correspondence only.",
+        tech="Coq proof (carry-chain / CIOS invariants by lia/nia, modular algebra) + differential correspondence", ref="DESIGN.md 6.15"),
+    "C08": dict(
+        text="Theorems over every ring with partial inverse (instantiated for Fp, whose laws are proved): the transcribed gnark "
+             "PointProj Add/MixedAdd/Double/Neg, PointExtended Add and the repo's ExtendedAddNormalized map representations "
+             "of affine points to a representation of the affine twisted-Edwards sum/double/negation; results are independent "
+             "of the representation (projective rescaling, class member (-x,-y)) up to Banderwagon class and satisfy Equal's "
+             "cross-multiplication; commutativity, identity, P-P=O, negation morphism, +T2 = class flip. Premises: Z and the "
+             "law denominators invertible. Associativity, completeness on the subgroup, exponent r, and GLV ScalarMul vs the "
+             "double-and-add specification are NOT proved: scalar-multiplication laws are checked by correspondence "
+             "(all aliasing patterns, identity-class operands, boundary scalars).",
+        note="gnark-crypto's GLV scalar multiplication is modelled by its specification (double-and-add), compared differentially.",
+        tech="Coq proof (ring/field identities on coordinate formulas) + differential correspondence", ref="DESIGN.md 6.8"),
+    "C07": dict(
+        text="Theorems: Bytes is a function of the Banderwagon class of the represented affine point only (invariant under every "
+             "projective rescaling incl. the Z=1 fast path and under (x,y)->(-x,-y)), always 32 bytes; Equal holds between all "
+             "representations of one class, is reflexive, symmetric, transitive (middle Y invertible), false against the "
+             "all-zero value, and is exactly equality of X/Y. PARTIAL: 'Equal <-> equal Bytes' across different computations "
+             "and 'decode(Bytes P) Equal P' need x/y injective on classes (p prime, d non-square) and the sqrt specification; "
+             "those are decided by correspondence on random operation histories over all representations.",
+        note="x/y injectivity on the subgroup (needs primality of p, d non-square) is not proved.",
+        tech="Coq proof (representation invariance, equivalence laws) + differential correspondence on histories", ref="DESIGN.md 6.7"),
+    "C11": dict(
+        text="Theorems: MapToScalarField = canonical integer of X/Y in Fp reduced mod r; same value for every representation "
+             "(any projective scaling, class member (-x,-y)); Equal <-> same X/Y (so non-Equal elements map to different x/y); "
+             "the batch variant (one batch inversion with zero skipping) equals the single-element map for every list. "
+             "Correspondence: Go scalars vs model on elements from histories in all representations and batches 0..300.",
+        note="fp inversion of gnark-crypto is compared, not verified.",
+        tech="Coq proof (field identities, batch-inversion theorem) + differential correspondence", ref="DESIGN.md 6.11"),
+    "C19": dict(
+        text="Theorems for every list / pointer list: ElementsToBytes, BatchToBytesUncompressed, BatchMapToScalarField equal the "
+             "single-element functions position by position (via the batch-inversion theorem, Z=1 fast path included); "
+             "BatchNormalize over a store with ANY pointer list (duplicates, any enumeration order) fails iff some pointed Z=0 "
+             "producing nothing, else replaces exactly the pointed elements by their normal form (Z=1, same affine point, same "
+             "Bytes, Equal), independent of order; trusted uncompressed round trip. The model's BatchNormalize is the function "
+             "run by the correspondence (lists with aliasing, Z=0 at each position, sizes at Execute partition boundaries).",
+        note="Go map iteration order is modelled as an arbitrary enumeration order (theorem quantifies over it).",
+        tech="Coq proof (induction over pointer lists, batch-inversion theorem) + differential correspondence", ref="DESIGN.md 6.19"),
 }
 
 
@@ -40,7 +88,8 @@ def main():
     checks, na = [], []
     for p in props:
         pid = p["id"]
-        if pid in CLAIMED and os.path.exists(os.path.join(VERIF, "lib", "props", pid.lower() + ".py")):
+        if pid in CLAIMED and os.path.exists(os.path.join(VERIF, "lib", "props", pid.lower() + ".py")) \
+                and os.path.exists(os.path.join(VERIF, "coq", "Properties", pid + ".v")):
             c = CLAIMED[pid]
             checks.append({
                 "property_id": pid,
